@@ -144,29 +144,40 @@ Theorem mech_rejects_where_checked : forall st, mech_chk st = true -> verdict_of
 Proof. exact mech_checked_reject_l. Qed.
 Print Assumptions mech_rejects_where_checked.
 
-(* it lacks 18 of the 31 tests ... *)
+(* the nine tests added by the repairs c8a1652 (x++, a[i]++, s.m++, ( *p)++ on something const), a842ca6 (p++ on a
+   T* const), 8c94aff (T* p = &c), a242434 (T& parameter), 38104c4 (T& r = c), 29cf056 (p->m = v through a
+   const S* ): each is made now, refuses its witness, and nothing protected changes (formerly `_refuted`) *)
+Theorem mech_repaired_tests_reject : forall st, In st repaired_sites ->
+  mech_chk st = true /\ verdict_of mech (witness st) = VRejected /\ breaks mech (witness st) = false.
+Proof. exact repaired_sites_reject_l. Qed.
+Print Assumptions mech_repaired_tests_reject.
+
+(* the matrix: the implementation refuses every expressible cell except nine; in particular all rows of the
+   scalar kinds, const struct, global, parameter and const pointer, and the cells of DESIGN.md #16 #17 #18 *)
+Theorem mech_matrix_rejected : forall k p c,
+  scenario true k p = Some c -> ~ In (k, p) open_cells -> verdict_of mech c = VRejected.
+Proof. exact mech_matrix_rejected_l. Qed.
+Print Assumptions mech_matrix_rejected.
+
+(* it still lacks 9 of the 31 tests ... *)
 Theorem mech_missing_tests_refuted : mech_holes =
-  [SIncDecVar; SElemIncDec; SMemberIncDec; SWholeMemberConst; SDerefIncDec; SDerefExprStore; SArrowStore; SPtrMemberConst;
-   SAddrDecl; SAddrSubAssign; SAddrSubDecl; SAddrArg; SPtrCopyAssign; SPtrCopyDecl; SRefParam; SRefLocal; SConstRefStore;
-   SReseatIncDec].
+  [SWholeMemberConst; SDerefExprStore; SPtrMemberConst; SAddrSubAssign; SAddrSubDecl; SAddrArg; SPtrCopyAssign; SPtrCopyDecl;
+   SConstRefStore].
 Proof. exact mech_holes_list. Qed.
 Print Assumptions mech_missing_tests_refuted.
 
-(* ... and for each of them except s.m++ (accepted, but the executor loses the new value) a script
-   changes a const object or re-seats a const pointer: const_slots_immutable / const_ptr_not_reseated
-   do not hold for the implementation as it is *)
+(* ... and for each of them a script changes a const object: const_slots_immutable does not hold for the
+   implementation as it is *)
 Theorem mech_const_immutable_refuted : forall st, In st mech_value_holes -> broken mech (fst (witness st)) (snd (witness st)).
 Proof. exact mech_refuted_l. Qed.
 Print Assumptions mech_const_immutable_refuted.
 
-(* in the matrix: 64 of the 111 expressible cells are not refused by the implementation, among them
-   the three rows of DESIGN.md section 7 (#16 ++ on a const, #17 address taken at the declaration,
-   #18 const passed to a T& parameter) *)
+(* in the matrix: 9 of the 111 expressible cells are still not refused (address of an element / member of a
+   const aggregate, const members through the whole struct or an S*, pointer copies dropping the pointee const) *)
 Theorem mech_matrix_refuted :
-  n_applicable = 111%nat /\ length mech_matrix_holes = 64%nat /\
-  In (KInt, PPostInc) mech_matrix_holes /\ In (KInt, PAddrDecl) mech_matrix_holes /\ In (KInt, PRefParam) mech_matrix_holes /\
-  In (KStruct, PArrowSt) mech_matrix_holes /\ In (KInt, PLocalRef) mech_matrix_holes /\ In (KCptr, PPostInc) mech_matrix_holes.
-Proof. vm_compute. repeat split; tauto. Qed.
+  n_applicable = 111%nat /\ mech_matrix_holes = open_cells /\
+  forall kp, In kp open_cells -> exists c, scenario true (fst kp) (snd kp) = Some c /\ verdict_of mech c = VChanged.
+Proof. split; [vm_compute; reflexivity|]. split; [exact mech_matrix_holes_list|exact mech_matrix_open_l]. Qed.
 Print Assumptions mech_matrix_refuted.
 
 (* ------------------------------------------------------------------ non-vacuity *)
